@@ -112,6 +112,13 @@ class P(Prop):
                 conns["zz"] = nm()
             return {"op": "add_blackbox", "bb": list(bb), "name": rng.choice(["u", "v", "w", "u_x"]),
                     "connections": [[k2, v] for k2, v in conns.items()]}
+        if k == "add_subcircuit" and rng.random() < 0.1 and len(c.graph) <= 12:
+            # the circuit added into itself (K44)
+            conns = {}
+            for p in rng.sample(sorted(c.io()), rng.randint(0, min(2, len(c.io())))):
+                conns[p] = nm()
+            return {"op": "add_subcircuit", "self": True, "sc": None, "name": rng.choice(["c", "u", "s0", "a"]),
+                    "connections": [[k2, v] for k2, v in conns.items()], "strip_io": True}
         if k == "add_subcircuit":
             sc = self.small()
             conns = {}
@@ -176,8 +183,8 @@ class P(Prop):
             return call(c.add_blackbox, bb, op["name"], dict(map(tuple, op["connections"])))
         if k == "add_subcircuit":
             from common import c_from_json
-            return call(c.add_subcircuit, c_from_json(op["sc"]), op["name"], dict(map(tuple, op["connections"])),
-                        op.get("strip_io", True))
+            return call(c.add_subcircuit, c if op.get("self") else c_from_json(op["sc"]), op["name"],
+                        dict(map(tuple, op["connections"])), op.get("strip_io", True))
         if k == "fill_blackbox":
             from common import c_from_json
             return call(c.fill_blackbox, op["name"], c_from_json(op["sc"]))
